@@ -22,7 +22,10 @@ COQ = os.path.join(ROOT, "coq")
 # copy of /repo without touching /repo itself; the registered commands never set them.
 HARNESS = os.environ.get("GV_HARNESS_DIR", os.path.join(ROOT, "harness"))
 TARGET = os.environ.get("GV_TARGET_DIR", os.path.join(BUILD, "target"))
-EVID = os.path.join(ROOT, "evidence")
+# GV_OUT_TAG: set only by tools/seedtest.sh — evidence, replay files and generated case files of such a run
+# go to tagged places so that it cannot disturb (or be mistaken for) a registered run against /repo
+OUT_TAG = os.environ.get("GV_OUT_TAG", "")
+EVID = os.path.join(ROOT, "evidence") if not OUT_TAG else os.path.join(BUILD, "evidence-" + OUT_TAG)
 KNOWN_FILE = os.path.join(ROOT, "known-findings.json")
 NCPU = os.cpu_count() or 4
 
@@ -218,7 +221,7 @@ def proof_status(prop, requires, extra_files=None):
         res["build_log"] = tail
         # find which statements are still provable is impossible without the .vo: all undischarged
         return res
-    d = os.path.join(BUILD, "pin")
+    d = os.path.join(BUILD, "pin" + ("-" + OUT_TAG if OUT_TAG else ""))
     os.makedirs(d, exist_ok=True)
     # one file per statement so that one failure does not hide the others
     def one(i_ns):
@@ -304,7 +307,11 @@ def cargo_build(binname, profile="dev", timeout=3000):
 
 
 def run_harness(binpath, args, out_path, timeout=1800, env=None):
+    if OUT_TAG and OUT_TAG not in os.path.basename(out_path):
+        out_path = out_path + "." + OUT_TAG
     os.makedirs(os.path.dirname(out_path), exist_ok=True)
+    if os.path.exists(out_path):
+        os.remove(out_path)
     cmd = [binpath] + [str(a) for a in args] + ["--out", out_path]
     t0 = time.time()
     e = dict(os.environ)
@@ -401,7 +408,7 @@ def coq_eval(name, requires, exprs, shard=250):
     Raises RuntimeError when coqc rejects a generated file (a harness/model interface bug)."""
     if not exprs:
         return []
-    d = os.path.join(BUILD, "cases", name)
+    d = os.path.join(BUILD, "cases", (OUT_TAG + "_" if OUT_TAG else "") + name)
     shutil.rmtree(d, ignore_errors=True)
     os.makedirs(d)
     jobs = []
@@ -448,7 +455,7 @@ class Check:
         os.makedirs(os.path.join(BUILD, "replay"), exist_ok=True)
 
     def replay_path(self, tag):
-        return os.path.join(BUILD, "replay", "%s_%s.json" % (self.prop, tag))
+        return os.path.join(BUILD, "replay", "%s%s_%s.json" % (OUT_TAG + "_" if OUT_TAG else "", self.prop, tag))
 
     def violation(self, tag, obj, no_input=False):
         p = self.replay_path(tag)
